@@ -17,7 +17,8 @@ EXPLANATION = (
     "starts at 0 and is incremented only on the passing edge of the per-key check; Ok(true) is reachable exactly for count >= threshold "
     "(ordering table over count <,=,> threshold); Ok(false) only after the key list is exhausted. C09.5: each verify_* wrapper returns "
     "Ok only on the true edge of its has_* and Err otherwise. C09.6: writer and reader both use the 'signed' known value. C09.8: every verify* entry point (and unseal) has each success exit dominated by a positive verdict on self or by the success edge of another verify* call on self. C09.9: add_signatures / add_signatures_opt are left folds of the single-signer writer over the accumulated envelope. Does not "
-    "decide the signature schemes themselves ('under no other key').")
+    "decide the signature schemes themselves ('under no other key')."
+    " C09.10: sink pairing and action arms (C02.1 / C02.2) - the obscured form of a part declares the part's own digest, so signatures keep verifying.")
 TRUSTED = ['Signer::sign_with_options / Verifier::verify implement their schemes over the given message bytes']
 FLOORS = {'C09.1': 3, 'C09.2': 1, 'C09.3': 2, 'C09.4': 4, 'C09.5': 4, 'C09.6': 2, 'C09.8': 8, 'C09.9': 2}
 P1, P2, P3 = ('param', 1), ('param', 2), ('param', 3)
@@ -594,6 +595,14 @@ _check_before_errflow = check
 def check(ctx):
     _check_before_errflow(ctx)
     check_family(ctx)
+    # C09.10: "keeps verifying after any elision, encryption or compression of the envelope's parts": the obscured form of a part declares
+    # the part's own digest (sink pairing and action arms, C02.1 / C02.2), so the subject digest the signature covers is unchanged
+    from .. import obscure
+    try:
+        obscure.check_sinks(ctx, 'C09.10')
+        obscure.check_obscure_region(ctx, 'C09.10/action')
+    except Exception as e:
+        ctx.fail('C09.10', '-', 'digest-preserving obscuration (C02.1/C02.2) could not be evaluated: %r' % e, key='C09.10|c02')
     # C09.7 error discipline: no error of a fallible call is turned into "absent / false / default" outside the reviewed table
     from .. import errflow
     errflow.check(ctx, 'C09.7', ['src/extension/signature/signature_impl.rs', 'src/extension/signature/signature_metadata.rs'], 'signature family')
